@@ -43,7 +43,7 @@ STUBS = ['find_or_add / _ite -> contracts that may raise the reordering request 
          'dd.bdd.reorder -> contract: all references not externally held become stale (identity permutation)']
 CUTS = ['undecorated operations: reorder contract instantiated with the identity permutation only']
 
-OPS = ['ite', 'apply_and', 'quantify', 'forall_method', 'apply_forall', 'quantify_kw', 'cofactor', 'compose', 'rename', 'cube', 'var',
+OPS = ['ite', 'apply_and', 'quantify', 'forall_method', 'apply_forall', 'quantify_kw', 'cofactor', 'cofactor_low', 'compose', 'rename', 'cube', 'var',
        'add_expr', 'image', 'preimage', 'copy_into', 'load', 'autoref_find_or_add',
        '_copy_copy_bdd']
 
@@ -306,6 +306,9 @@ class Harness:
             elif op == 'cofactor':
                 r = bdd.let({names[0]: True}, U)
                 want = oracle.bv_cof(den, den.s(u), 0, 1)
+            elif op == 'cofactor_low':          # a variable below the top: new nodes can be needed
+                r = bdd.let({names[L - 1]: False}, U)
+                want = oracle.bv_cof(den, den.s(u), L - 1, 0)
             elif op == 'compose':
                 r = bdd.let({names[0]: V}, U)
                 want = oracle.bv_subst(den, den.s(u), 0, den.s(v))
@@ -424,6 +427,8 @@ def _run_real(case, last_len):
         want = concrete.quant_tt(tt(u), lv, True, L)
     elif op == 'cofactor':
         want = concrete.cof_tt(tt(u), 0, 1, L)
+    elif op == 'cofactor_low':
+        want = concrete.cof_tt(tt(u), L - 1, 0, L)
     elif op in ('compose', 'rename'):
         from .let import int_subst_many
         g = tt(v) if op == 'compose' else concrete.var_tt(1, L)
@@ -460,6 +465,8 @@ def _run_real(case, last_len):
                 r = bdd.apply('forall', v, u)
             elif op == 'cofactor':
                 r = bdd.let({names[0]: True}, u)
+            elif op == 'cofactor_low':
+                r = bdd.let({names[L - 1]: False}, u)
             elif op == 'compose':
                 r = bdd.let({names[0]: v}, u)
             elif op == 'rename':
@@ -563,6 +570,8 @@ def _amplified(case):
             return bdd.apply('forall', v0, f)
         if op == 'cofactor':
             return bdd.let({n0: True}, f)
+        if op == 'cofactor_low':
+            return bdd.let({'b2': False, 'b3': True}, f)
         if op == 'compose':
             return bdd.let({n0: g}, f)
         if op == 'rename':
